@@ -177,7 +177,10 @@ def run_check(pid, tier, seed, replay=None, nworkers=None, verbose=True):
     for r in viol[:int(os.environ.get("VERIF_MAX_REPLAYS", "25"))]:
         path = os.path.join(WORK, 'replays', pid, f"seed{seed}_{tier}_case{r['idx']}.json")
         with open(path, 'w') as f:
-            json.dump({'property': pid, 'seed': seed, 'tier': tier, 'case': r['case'], 'result': {k: v for k, v in r.items() if k != 'case'}},
+            rcase = dict(r['case'])
+            if r.get('spec') is not None:
+                rcase['spec'] = r['spec']       # replay exactly this model even if the generators change later
+            json.dump({'property': pid, 'seed': seed, 'tier': tier, 'case': rcase, 'result': {k: v for k, v in r.items() if k != 'case'}},
                       f, indent=1, default=str)
         replay_paths.append(path)
         out_lines.append(f"VIOLATION property={pid} replay={path}")
